@@ -131,3 +131,29 @@ Proof.
   unfold qu2om, qu2om_single. rsimpl.
   intros H. injection H. intros. lra.
 Qed.
+
+(* Gimbal branch Phi = 0 (rotation about the sample Z axis, b = c = 0): the
+   returned Euler angles (phi1, 0, 0) describe the quaternion's rotation *)
+Lemma qu2eu_gimbal0_matrix a d :
+  a * a + d * d = 1 -> bunge (qu2eu ROps (a, 0, 0, d)) = qu2om ROps (a, 0, 0, d).
+Proof.
+  intros Hu.
+  unfold qu2eu, qu2eu_single. cbv zeta. rsimpl.
+  replace ((a * a + d * d) * (0 * 0 + 0 * 0)) with 0 by ring.
+  rewrite sqrt_0.
+  destruct (Rltb 0 (1 / 1000000000)) eqn:E; [|apply Rltb_false in E; lra].
+  destruct (Rltb (0 * 0 + 0 * 0) (1 / 1000000000)) eqn:E2; [|apply Rltb_false in E2; lra].
+  destruct (atan2_unit (-2 * a * d) (a * a - d * d)) as [C0 S0].
+  { replace ((a * a - d * d) * (a * a - d * d) + -2 * a * d * (-2 * a * d))
+      with ((a * a + d * d) * (a * a + d * d)) by ring. rewrite Hu. ring. }
+  erewrite bunge_entries.
+  2-7: rewrite ?cos_fmod, ?sin_fmod; first [eassumption | apply cos_0 | apply sin_0].
+  unfold qu2om, qu2om_single. rsimpl.
+  assert (Hd : d * d = 1 - a * a) by lra.
+  repeat match goal with |- (_, _) = (_, _) => apply f_equal2 end; ring_simplify; rewrite ?Hd; try ring; nra.
+Qed.
+
+Lemma eu2qu_qu2eu_gimbal0 a d :
+  a * a + d * d = 1 ->
+  qu2om ROps (eu2qu ROps (qu2eu ROps (a, 0, 0, d))) = qu2om ROps (a, 0, 0, d).
+Proof. intros Hu. rewrite qu2om_eu2qu. apply qu2eu_gimbal0_matrix. exact Hu. Qed.
